@@ -60,6 +60,13 @@ def cases(tier, seed):
     for d in (0.5, 0.3, 1.0):
         for vec in (False, True):
             out.append({'kind': 'edge', 'delay': d, 'vectorize': vec, 'solver': 'scipy'})
+    # 1-3 structurally identical nodes (merged by the vectorization) with their own rate, initial value and - for named
+    # delays - their own delay: vectorized and non-vectorized runs must agree
+    for n in (1, 2, 3):
+        for named in (False, True):
+            for notation in ('past', 'call'):
+                for solver in ('euler', 'scipy'):
+                    out.append({'kind': 'vec', 'n': n, 'named': named, 'notation': notation, 'solver': solver})
     # trajectories: method of steps and exact history of a ramp
     for tau in (0.5, 0.3, 1.0):
         for solver in ('euler', 'heun', 'scipy'):
@@ -80,7 +87,7 @@ def describe(tier, seed):
                     'the state vector, solver conventions euler (t = step counter) and scipy: the compiled function called '
                     'with a hand-made quadratic hist (distinct per component) at 6 probe times must equal the reference that '
                     'reads component x of hist(t_time - tau); delayed edges under an adaptive solver; run() vs method-of-steps '
-                    'solution (euler, heun, scipy) and vs the exact history of a ramp (also sampled more coarsely than stepped, and over '
+                    'solution (euler, heun, scipy); vectorized vs non-vectorized runs of 1-3 merged nodes with per-node delays; run() vs the and vs the exact history of a ramp (also sampled more coarsely than stepped, and over '
                     'more steps than the history buffer initially holds); non-trivial = all',
             'bounds': {'state_vars': 3, 'delayed_terms': 2 if tier == 'quick' else 3}}
 
@@ -100,7 +107,7 @@ def run_case(case):
         return res
     try:
         return {'func': run_func, 'edge': run_edge, 'steps': run_steps, 'ramp': run_ramp,
-                'quad': run_quad}[case['kind']](case, res, sig, viol)
+                'quad': run_quad, 'vec': run_vec}[case['kind']](case, res, sig, viol)
     except Exception as e:
         import traceback
         sig['exc'] = type(e).__name__
@@ -294,5 +301,44 @@ def run_quad(case, res, sig, viol):
         if got.shape != exp.shape or np.max(np.abs(got - exp)) > 1e-9:
             return viol('history_trajectory', var=name, got=got.tolist()[:10], expected=exp.tolist()[:10])
     res['outcome'] = 'quad'
+    res['ok'] = True
+    return res
+
+
+def run_vec(case, res, sig, viol):
+    """n nodes of one template with x' = -a*x - 0.75*x(t - tau): per-node a, x(0) and (named delays) tau"""
+    from pyrates import OperatorTemplate, NodeTemplate, CircuitTemplate
+    from .. import pool
+    n = case['n']
+    d = 'tau' if case['named'] else '0.5'
+    sig['features'].append('vectorized_delayed_terms')
+
+    def build():
+        op = OperatorTemplate('dop', equations=[f"d/dt * x = -a*x - 0.75*{term('x', d, case['notation'])}"],
+                              variables=dict({'x': 'output(0.4)', 'a': 0.5}, **({'tau': 0.5} if case['named'] else {})))
+        nodes = {}
+        for i in range(n):
+            ov = {'a': 0.5 + 0.25 * i, 'x': 0.4 + 0.3 * i}
+            if case['named']:
+                ov['tau'] = 0.5 - 0.125 * i
+            nodes[f'n{i}'] = NodeTemplate(f'n{i}', operators={op: ov})
+        return CircuitTemplate('c', nodes=nodes)
+    frames = {}
+    kw = dict(rtol=1e-9, atol=1e-11) if case['solver'] == 'scipy' else {}
+    for vec in (False, True):
+        pool.fresh_state()
+        df = build().run(simulation_time=2.0, step_size=2.0 ** -5, sampling_step_size=2.0 ** -3,
+                         outputs={f'x{i}': f'n{i}/dop/x' for i in range(n)}, solver=case['solver'], vectorize=vec,
+                         backend='default', verbose=False, clear=True, float_precision='float64', **kw)
+        frames[vec] = np.array([np.asarray(df[f'x{i}'], dtype=float) for i in range(n)])
+        res['evals'] += 1
+    tol = 1e-10 if case['solver'] == 'euler' else 1e-6
+    if frames[True].shape != frames[False].shape or np.max(np.abs(frames[True] - frames[False])) > tol:
+        return viol('vectorized_differs', per_node=np.max(np.abs(frames[True] - frames[False]), axis=1).tolist())
+    # and the first node against the method-of-steps solution of x' = -a x - k x(t - tau) is covered by 'steps'; here:
+    # node i must not equal node j (distinct parameters reach distinct members)
+    if n > 1 and np.max(np.abs(frames[True][0] - frames[True][1])) < 1e-3:
+        return viol('members_not_distinct')
+    res['outcome'] = 'vec'
     res['ok'] = True
     return res
